@@ -109,6 +109,23 @@ def regenerate(log: list) -> dict:
     except Exception:
         info = {"changed": [], "sentinel_changed": []}
     info["ok"] = True
+    # source-to-Lean translation of the index-arithmetic core (Gen/Src.lean; DESIGN 3A item 6)
+    tr = os.path.join(VERIF, "harness", "translate.py")
+    if os.path.exists(tr):
+        r = run([PYTHON, tr], 300, cwd=VERIF)
+        log.append({"cmd": "translate.py", "rc": r.returncode, "tail": (r.stdout + r.stderr)[-1500:]})
+        if r.returncode != 0:
+            info["ok"] = False
+            info["error"] = "translate.py: " + (r.stdout + r.stderr)[-1500:]
+        else:
+            try:
+                t = json.loads(r.stdout)
+                info["translated"] = t["functions"]
+                if t.get("changed"):
+                    info.setdefault("changed", []).append("Gen/Src.lean")
+            except Exception as e:                                  # noqa: BLE001
+                info["ok"] = False
+                info["error"] = f"translate.py output unreadable: {e}"
     return info
 
 
